@@ -29,6 +29,7 @@ def run(ctx, rep):
     nl = totality.check_termination(ctx, rep, E, ec)
     nr = totality.check_recursion(ctx, rep, E)
     totality.check_definite_assignment(ctx, rep, E)
+    totality.check_none_as_index(ctx, rep, E)
     ne = totality.check_establishing(ctx, rep, E)
     # EST-KEKULIZED: the printers assert that no atom is aromatic any more: kekulize() reports success only with the
     # delocalised subgraph emptied (and the writer / encoder test is_kekulized / the result)   (C05/K1, K4 shared)
